@@ -1,6 +1,6 @@
 (* C19 — The package cache is transparent and survives crashes and concurrent
    writers.  Property theorems only; proofs are in Proofs/CacheProofs.v. *)
-From Apko Require Import Base.Prelude Model.Cache Spec.CacheSpec Proofs.CacheProofs Proofs.CacheTemp Generated.C19Cache.
+From Apko Require Import Base.Prelude Model.Cache Spec.CacheSpec Proofs.CacheProofs Proofs.CacheTemp Proofs.CacheCommit Generated.C19Cache.
 Open Scope string_scope. Open Scope list_scope.
 
 (* For every origin, every NUMBER of builders, each running the index
@@ -278,3 +278,119 @@ Proof.
   split; [vm_compute; reflexivity|]. reflexivity.
 Qed.
 Print Assumptions c19_lookup_not_atomic_refuted.
+
+(* The same hole without any concurrency, and permanent (finding C19-F3): a
+   package is rebuilt under the same name-version with a changed control section
+   and a byte-identical data section; the first build runs to the end, the build
+   of the new revision is killed right after advertising its control section (19
+   steps).  An ATOMIC lookup of the new revision is a hit — control section new,
+   data and tar found under the shared datahash — without the signature section. *)
+Definition f3_origin : path -> content := fun n =>
+  match n with
+  | PMember _ MCtl h => if String.eqb h "c2" then ["ctl2"] else ["ctl"]
+  | PMember _ MSig h => if String.eqb h "c2" then ["sig2"] else ["sig"]
+  | _ => ex_origin n
+  end.
+Definition f3_apk2 : apk :=
+  {| a_sig := Some ["sig2"]; a_ctl := ["ctl2"]; a_dat := ["gz1"; "gz2"]; a_tar := ["t1"; "t2"; "t3"];
+     a_ctlh := "c2"; a_dath := "d" |}.
+Definition f3_bs := [BPackage "p" ex_apk; BPackage "p" f3_apk2].
+Definition f3_sched : list nat := repeat 0 40 ++ repeat 1 19.
+Lemma f3_bs_ok : builders_ok f3_origin f3_bs.
+Proof.
+  intros dir a [E|[E|[]]]; inversion E; subst; repeat split; try reflexivity;
+    intros s E'; inversion E'; reflexivity.
+Qed.
+Theorem c19_stale_hit_without_sig_refuted : exists origin srv gunzip datahash_of (bs : list builder) sched dir a m,
+  builders_ok origin bs /\ (forall b, In b bs -> is_reader b = false) /\
+  In (BPackage dir a) bs /\ a_sig a <> None /\
+  read_package datahash_of (dsk (run gunzip srv (init (progs bs)) sched)) dir (a_ctlh a) = Hit m /\
+  m_ctl m = a_ctl a /\ m_sig m = None.
+Proof.
+  exists f3_origin, w_srv, w_gunzip, (fun _ => "d"), f3_bs, f3_sched, "p", f3_apk2.
+  eexists. split; [exact f3_bs_ok|].
+  split; [intros b [<-|[<-|[]]]; reflexivity|].
+  split; [right; left; reflexivity|]. split; [discriminate|].
+  split; [vm_compute; reflexivity|]. split; reflexivity.
+Qed.
+Print Assumptions c19_stale_hit_without_sig_refuted.
+
+(* THE REPAIR of C19-F2 and C19-F3 (fixes/C19-F2.patch, proposed, not applied):
+   cachePackage advertises the control section LAST ([progs_ord true]).  Then
+   for every origin, builders, schedule and kills, a cachedPackage lookup that
+   reads the control section in one reachable state, the signature section in
+   a later one, the data section in a later one and the tar in a still later
+   one (any steps of any builders in between) is a miss because the control
+   section is not advertised, or a hit with EXACTLY what a build without cache
+   obtains — the signature section included when the package has one, absent
+   when it has none — and never needs the rebuild: c19_transparent for
+   non-atomic lookups.  Hypotheses beyond c19_invariant's ([builders_decl]):
+   whether a package is signed is a function of its control checksum, and the
+   data section is the one whose hash the control section declares (which
+   verifyExpanded checks on every fresh download).  The c19_invariant itself
+   holds for this order too. *)
+Theorem c19_f2_fix_transparent : forall origin srv gunzip datahash_of signed (bs : list builder)
+    sched1 sched2 sched3 sched4 dir ctlh,
+  origin_gunzip origin gunzip -> etag_names_content origin srv -> builders_ok origin bs ->
+  builders_decl datahash_of signed true bs ->
+  let s0 := init (progs_ord true bs) in
+  let d1 := dsk (run gunzip srv s0 sched1) in
+  let d2 := dsk (run gunzip srv s0 (sched1 ++ sched2)) in
+  let d3 := dsk (run gunzip srv s0 ((sched1 ++ sched2) ++ sched3)) in
+  let d4 := dsk (run gunzip srv s0 (((sched1 ++ sched2) ++ sched3) ++ sched4)) in
+  CacheSound origin d4 /\
+  match read_package_seq4 datahash_of d1 d2 d3 d4 dir ctlh with
+  | Hit m => m = fetch_origin_exact origin datahash_of signed dir ctlh
+  | Miss => d1 (PMember dir MCtl ctlh) = None
+  | NeedsRebuild => False
+  end.
+Proof.
+  intros. split; [apply population_sound_ord; assumption | apply fix_lookup_exact; assumption].
+Qed.
+Print Assumptions c19_f2_fix_transparent.
+
+(* non-vacuity, and the two witnesses above replayed with the repaired order:
+   the racing lookup of c19_lookup_not_atomic_refuted (control and signature
+   looked up after 19 steps, data and tar at the end) and the lookup after the
+   kill of c19_stale_hit_without_sig_refuted are now MISSES; a lookup after the
+   run is a hit with the signature section *)
+Definition f3_signed (dir h : string) : bool := true.
+Example c19_f2_fix_examples :
+  builders_ok f3_origin f3_bs /\ builders_decl (fun _ => "d") f3_signed true f3_bs /\
+  let s0 := init (progs_ord true [BPackage "p" ex_apk]) in
+  read_package_seq (fun _ => "d") (dsk (run w_gunzip w_srv s0 (repeat 0 19)))
+                   (dsk (run w_gunzip w_srv s0 (repeat 0 19 ++ repeat 0 30))) "p" "c" = Miss /\
+  read_package (fun _ => "d") (dsk (run w_gunzip w_srv (init (progs_ord true f3_bs)) f3_sched)) "p" "c2" = Miss /\
+  read_package (fun _ => "d") (dsk (run w_gunzip w_srv (init (progs_ord true f3_bs)) (f3_sched ++ repeat 1 20))) "p" "c2"
+    = Hit (fetch_origin_exact f3_origin (fun _ => "d") f3_signed "p" "c2").
+Proof.
+  split; [exact f3_bs_ok|]. split.
+  { intros dir a [E|[E|[]]]; inversion E; subst; split; try reflexivity; intros _; split; try reflexivity; discriminate. }
+  vm_compute. repeat split.
+Qed.
+
+(* What a lookup can rely on today (the "resolves_stable" of the notes): an
+   advertised entry that is present stays present, with the origin's content,
+   whatever any builder does afterwards — nothing is ever removed or replaced
+   under an advertised name. *)
+Theorem c19_entries_stable : forall origin srv gunzip (bs : list builder) sched sched' n,
+  origin_gunzip origin gunzip -> etag_names_content origin srv -> builders_ok origin bs ->
+  is_adv n = true ->
+  dsk (run gunzip srv (init (progs bs)) sched) n <> None ->
+  resolve (dsk (run gunzip srv (init (progs bs)) (sched ++ sched'))) n = Some (origin n, true) /\
+  resolve (dsk (run gunzip srv (init (progs bs)) sched)) n = Some (origin n, true).
+Proof. exact (entries_stable false). Qed.
+Print Assumptions c19_entries_stable.
+
+(* ... and therefore the PackageData call that ends cachePackage (after the four
+   AdvertiseCachedFile calls) never enters the rebuild: whenever a package
+   builder is about to perform it, <hash>.dat.tar resolves to the origin's tar
+   and the step does nothing. *)
+Theorem c19_cache_package_skips_rebuild : forall origin srv gunzip (bs : list builder) sched j dir a gz tar tmp rest,
+  origin_gunzip origin gunzip -> etag_names_content origin srv -> builders_ok origin bs ->
+  let s := run gunzip srv (init (progs bs)) sched in
+  nth_error bs j = Some (BPackage dir a) ->
+  nth_error (procs s) j = Some (Rebuild gz tar tmp :: rest) ->
+  resolve (dsk s) tar = Some (origin tar, true) /\ snd (exec gunzip (dsk s) (Rebuild gz tar tmp)) = [].
+Proof. exact cache_package_skips_rebuild. Qed.
+Print Assumptions c19_cache_package_skips_rebuild.
